@@ -165,15 +165,17 @@ def _analyze(template: Template, *, include_partials: bool) -> TemplateAnalysis:
     # different names in scope, as they decide which of its variables are global.
     seen: set[tuple[object, ...]] = set()
 
-    def _seen(partial_name: str, partial: Partial) -> bool:
+    def _seen(partial_name: str, partial: Partial, scope: _StaticScope) -> bool:
         in_scope = frozenset(str(name) for name in partial.in_scope)
         if partial.scope == PartialScope.ISOLATED:
             key: tuple[object, ...] = (partial_name, partial.scope, in_scope)
         else:
             # The template scope only grows, so the first visit is the most
             # conservative as far as it is concerned. Block scopes come and go.
-            block_scope = frozenset(chain.from_iterable(root_scope.stack[1:]))
-            key = (partial_name, partial.scope, in_scope, block_scope)
+            block_scope = frozenset(chain.from_iterable(scope.stack[1:]))
+            # The scope of an isolated partial does not include the root template's.
+            base = None if scope is root_scope else frozenset(scope.stack[0])
+            key = (partial_name, partial.scope, in_scope, block_scope, base)
         if key in seen:
             return True
         seen.add(key)
@@ -210,13 +212,13 @@ def _analyze(template: Template, *, include_partials: bool) -> TemplateAnalysis:
         if partial := node.partial_scope():
             partial_name = str(partial.name.evaluate(static_context))
 
-            if _seen(partial_name, partial):
+            if _seen(partial_name, partial, scope):
                 return
 
             partial_scope = (
                 _StaticScope(set(partial.in_scope))
                 if partial.scope == PartialScope.ISOLATED
-                else root_scope.push(set(partial.in_scope))
+                else scope.push(set(partial.in_scope))
             )
 
             for child in node.children(
@@ -268,15 +270,17 @@ async def _analyze_async(
     # different names in scope, as they decide which of its variables are global.
     seen: set[tuple[object, ...]] = set()
 
-    def _seen(partial_name: str, partial: Partial) -> bool:
+    def _seen(partial_name: str, partial: Partial, scope: _StaticScope) -> bool:
         in_scope = frozenset(str(name) for name in partial.in_scope)
         if partial.scope == PartialScope.ISOLATED:
             key: tuple[object, ...] = (partial_name, partial.scope, in_scope)
         else:
             # The template scope only grows, so the first visit is the most
             # conservative as far as it is concerned. Block scopes come and go.
-            block_scope = frozenset(chain.from_iterable(root_scope.stack[1:]))
-            key = (partial_name, partial.scope, in_scope, block_scope)
+            block_scope = frozenset(chain.from_iterable(scope.stack[1:]))
+            # The scope of an isolated partial does not include the root template's.
+            base = None if scope is root_scope else frozenset(scope.stack[0])
+            key = (partial_name, partial.scope, in_scope, block_scope, base)
         if key in seen:
             return True
         seen.add(key)
@@ -313,13 +317,13 @@ async def _analyze_async(
         if partial := node.partial_scope():
             partial_name = str(partial.name.evaluate(static_context))
 
-            if _seen(partial_name, partial):
+            if _seen(partial_name, partial, scope):
                 return
 
             partial_scope = (
                 _StaticScope(set(partial.in_scope))
                 if partial.scope == PartialScope.ISOLATED
-                else root_scope.push(set(partial.in_scope))
+                else scope.push(set(partial.in_scope))
             )
 
             for child in await node.children_async(
